@@ -37,10 +37,32 @@ func init() {
 		Level:   "proof",
 		Prepare: func(e *Engine) { e.assumeKindInv = true },
 		NoTags:  true,
-		Opts:    func(e *Engine, key string) VerifyOpts { return VerifyOpts{Sweep: true} },
+		// "C04-part <function> <substring>..." lines of the lock: a function that cannot be claimed as a whole
+		// (some obligation needs a precondition that is not written yet, or is a recorded candidate) is claimed
+		// for the obligations whose name contains one of the substrings - ALL of them, also ones that appear later
+		Funcs: func(e *Engine) []string {
+			var out []string
+			for _, l := range loadLock(filepath.Join(verifRoot(), "obligations.lock"), "C04-part") {
+				if fs := strings.Fields(l); len(fs) >= 2 {
+					out = append(out, fs[0])
+				}
+			}
+			return out
+		},
+		Opts: func(e *Engine, key string) VerifyOpts {
+			o := VerifyOpts{Sweep: true}
+			for _, l := range loadLock(filepath.Join(verifRoot(), "obligations.lock"), "C04-part") {
+				if fs := strings.Fields(l); len(fs) >= 2 && fs[0] == key {
+					o.OnlyNames = append(o.OnlyNames, fs[1:]...)
+				}
+			}
+			return o
+		},
 		Assumptions: []string{
 			"scope: panic-freedom (nil dereference, index and slice bounds, type assertions, nil-map writes, make sizes, division, explicit panics, callee preconditions) of the functions listed in obligations.lock, each under the standing preconditions named in trusted_base; termination is NOT proved",
 			"functions of the swept packages that are not in the lock are undecided and not claimed (their failing obligations are either missing preconditions or candidate findings, see DESIGN.md)",
+			"`C04-part <function> <kinds>` lines claim a function per obligation kind: every obligation of a listed kind (nil-deref, index, nil-map-write, ...), also one that a later change adds, must discharge; the obligations of the other kinds of that function are not claimed and the claimed ones are proved assuming they hold (a failed obligation is assumed afterwards); a per-function cover obligation guards against a contradictory context",
+			"`binds` clauses: a precondition over the value receiver of a method that is used as a callback is checked where the method value is created (r.processObject) and assumed in the method; calls through the function value are not re-checked (the receiver copy cannot change)",
 			"calls to functions without a contract are assumed not to panic themselves (each is verified separately when it is in the lock); third-party libraries and text/template execution are assumed not to panic",
 		},
 	}
